@@ -112,6 +112,11 @@ class Rational(Primitive):
     def __str__(self) -> str:
         try:
             return str(self._value)
+        except ValueError:
+            # CPython limits the length of int <-> decimal string conversions (sys.set_int_max_str_digits);
+            # the hexadecimal form is not subject to the limit.
+            num, den = self._value.numerator, self._value.denominator
+            return hex(num) if den == 1 else "%s/%s" % (hex(num), hex(den))
         except AttributeError:  # pragma: no cover
             return "Rational(UNINITIALIZED)"
 
